@@ -64,6 +64,30 @@ func genSemStreams(r *h.Rng) []semStream {
 		if len(st.Labels) == 0 {
 			st.Labels = append(st.Labels, [2]string{"a", "b"})
 		}
+		// every third database or so: a stream that differs from the previous one ONLY in one label (x or level), so that
+		// `| drop x` / `without (x)` make the two one series (seeded C08-5: drop keeping the stored fingerprint under a
+		// non-additive aggregation)
+		if i > 0 && r.Chance(30) {
+			prev := res[i-1]
+			k := h.Pick(r, []string{"x", "level"})
+			var ls [][2]string
+			had := ""
+			for _, l := range prev.Labels {
+				if l[0] == k {
+					had = l[1]
+					continue
+				}
+				ls = append(ls, l)
+			}
+			nv := h.Pick(r, semLabelVals[k])
+			for try := 0; try < 6 && nv == had; try++ {
+				nv = h.Pick(r, semLabelVals[k])
+			}
+			if nv != had {
+				st.Labels = append(ls, [2]string{k, nv})
+				st.Type = prev.Type
+			}
+		}
 		res = append(res, st)
 	}
 	return res
